@@ -555,6 +555,13 @@ class Evaluator:
                 kinds = {'str': str, 'bytes': bytes, 'tuple': tuple, 'list': list, 'dict': dict, 'int': int, 'float': float, 'bool': bool}
                 if isinstance(self.intrinsics.get(tn), type):
                     return isinstance(v, self.intrinsics[tn])  # a model class supplied by the rule
+                if tn not in kinds and not (isinstance(e.args[1], ast.Tuple) and all(text(x) in kinds for x in e.args[1].elts)):
+                    try:
+                        tv = self.expr(e.args[1], env)
+                    except AnalysisError:
+                        tv = None
+                    if isinstance(tv, type) or (isinstance(tv, tuple) and tv and all(isinstance(x, type) for x in tv)):
+                        return isinstance(v, tv)  # model classes reached through the rule's model objects
                 if isinstance(e.args[1], ast.Tuple) and all(text(x) in kinds for x in e.args[1].elts):
                     return isinstance(v, tuple(kinds[text(x)] for x in e.args[1].elts))
                 if tn not in kinds:
